@@ -708,7 +708,8 @@ func (w *World) autoLemmaAxiom(lm *Lemma) string {
 func (w *World) tryHint(env *Env, s CStmt) (hyps []string, ok bool) {
 	defer func() {
 		if r := recover(); r != nil {
-			if ce, isC := r.(cerr); isC && strings.Contains(ce.msg, "no snapshot") {
+			if ce, isC := r.(cerr); isC && (strings.Contains(ce.msg, "no snapshot") || strings.Contains(ce.msg, "unknown identifier")) {
+				// the hint talks about a snapshot or a local that does not exist on this path: not applicable here
 				ok = false
 				return
 			}
